@@ -18,7 +18,10 @@ ALT_TERMS = [('T7', ['"ab"', '/[ab]+/']), ('T8', ['"a"', '/a+/']), ('T9', ['"ba"
 # terminals defined by a *sequence* of items one of which is a regexp alternation (lark concatenates the items' regexps into one): as meant, one terminal
 # per item under an inlined rule (no ignored text in these grammars, so the two readings have the same language)
 SEQ_TERMS = [('T10', ['/a|b/', '"c"']), ('T10', ['"a"', '/b|c/']), ('T11', ['/ab|c/', '"b"']), ('T11', ['"c"', '/a|b/', '"c"']), ('T10', ['/a|b/', '/b|c/'])]
-IGNORES = [('" "', [' ']), ('/ +/', [' ', '  '])]
+IGNORES = [('" "', [' ']), ('/ +/', [' ', '  ']),
+           # compound %ignore expressions (an alternative or a sequence that begins with a terminal name): (as meant, samples, as written)
+           ('" " | "_"', [' ', '_'], 'SP: " "\nUS: "_"\n%ignore SP | US'), ('" " "_"', [' _'], 'SP: " "\nUS: "_"\n%ignore SP US'),
+           ('" " | "_" | "~"', [' ', '_', '~'], 'SP: " "\nUS: "_"\n%ignore SP | US | "~"'), ('" "+ | "_"', [' ', '  ', '_'], 'SP: " "\nUS: "_"\n%ignore SP+ | US')]
 
 
 def gen(rng):
@@ -97,7 +100,10 @@ def _render(rules, named, ign, lit_name=None):
     for k, v in named.items():
         out.append('%s: %s' % (k, v))
     if ign:
-        out.append('WS: %s' % ign[0]); out.append('%ignore WS')
+        if len(ign) > 2 and lit_name is None:
+            out.append(ign[2])                  # as written: a compound %ignore expression over named terminals
+        else:
+            out.append('WS: %s' % ign[0]); out.append('%ignore WS')
     return '\n'.join(out) + '\n'
 
 
@@ -182,7 +188,7 @@ def _case(seed):
                     texts.append(s)
                     if s and rng.random() < 0.4:
                         k = rng.randrange(len(s)); texts.append(s[:k] + rng.choice('ab+: ') + s[k + 1:])
-            al = list('aabbc+:-. ')
+            al = list('aabbc+:-. ') + (list(ast['ignore'][1]) * 2 if ast.get('ignore') and len(ast['ignore']) > 2 else [])
             texts += [''.join(rng.choice(al) for _ in range(rng.randint(0, 6))) for _ in range(4)]
             if ast.get('big'):
                 item, lo, hi = ast['big']
